@@ -79,7 +79,8 @@ def execute(sc, workdir):
     # only the linkage clauses belong to C06 (device-state clauses are C02's)
     link = {"RD/WR without a pending request", "RD/WR direction differs from the request", "column differs from the request's column",
             "open row is not the row the request addressed", "ACT without a pending request",
-            "ACT row is not the row of the oldest pending request", "request never served"}
+            "ACT row is not the row of the oldest pending request", "request never served",
+            "port address width differs from the device's address space"}
     r["bad"] = [b for b in r["bad"] if b[1] in link]
     gname = "b%d-r%d-c%d-al%d-rk%d-bba%d" % (g.bankbits, g.rowbits, g.colbits, align, ps.nranks, sc.get("bba_rows", 0))
     r["nontrivial"] = [[gname, a] for a in addrs]
